@@ -213,6 +213,8 @@ class InstrMixin:
         """returns list of (succ, state)"""
         for ins in blk['instrs']:
             op = ins['op']
+            if ins.get('pos') and ctx['spec'] is not None and ctx['spec'].asserts_at and not self.mute:
+                self.check_asserts_at(ctx, ins, st)
             try:
                 if op == 'If':
                     c = self.val(ctx, ins['cond'])
@@ -242,6 +244,26 @@ class InstrMixin:
                 if op in ('Store', 'MapUpdate', 'Call', 'Send', 'Go', 'Defer', 'RunDefers'):
                     self.havoc_all_heap(st)
         return []
+
+    def check_asserts_at(self, ctx, ins, st):
+        """statement-anchored assertions: checked where execution first reaches the source line carrying the anchor"""
+        line = self.prog.srcline(ins['pos'])
+        if not line:
+            return
+        nline = ''.join(line.split())
+        for anchor, c in ctx['spec'].asserts_at:
+            if ''.join(anchor.split()) not in nline:
+                continue
+            key = (id(c), ctx['frame'], ins['pos'].rsplit(':', 1)[0])
+            if key in self.asserted_at:
+                continue
+            self.asserted_at.add(key)
+            try:
+                env = self.make_env(ctx, st, ctx.get('block'))
+                t = self.eval_bool(c.parse(), env)
+                self.oblige('assert', t, st, c.text, ins['pos'], clause=c, fnname=self.cur_name(ctx))
+            except Unsupported as e:
+                self.elab_fail('assert-at %r: %s' % (anchor, e), c)
 
     def exec_instr(self, ctx, ins, st):
         op = ins['op']
